@@ -274,3 +274,60 @@ def direct_arms(text, t, sform, suffix, want=""):
     body = ["  " + calls[0]] + ["  .or_else(|_| %s)" % c for c in calls[1:]]
     t2 = "\n".join(head + body + [l for l in tail if l.strip()])
     return re.sub(r"pub fn (vp_\w+)\(", lambda m_: "pub fn %s_%s(" % (m_.group(1), suffix), t2, count=1) + "\n"
+
+
+
+def _match_brace(src, i):
+    """index of the brace that closes the one at src[i]"""
+    depth, j = 0, i
+    while True:
+        ch = src[j]
+        if ch == "{":
+            depth += 1
+        elif ch == "}":
+            depth -= 1
+            if depth == 0:
+                return j
+        j += 1
+
+
+def extract_macro_arm(src, macro, triple, rel, fname):
+    """One arm `(a,b,c) => { .. }` of the `match (nargs,rows,columns)` inside the dispatch macro `macro` (impl_horzcat_arms! /
+    impl_vertcat_arms!), re-declared as a function generator
+
+        macro_rules! <fname> { ($f:ident, $kind:ident, $default:expr) => { paste!{ pub fn $f(arguments: &[Value], <binders>: usize)
+            -> MResult<Box<dyn MechFunction>> { <the helper fns the macro defines before its match> <arm body, verbatim> } } } }
+
+    Why: called through the whole dispatch function the arm cannot be decided for matrix blocks - the scrutinee values come out of
+    `Value::shape()` (a pointer chain through a nested enum payload that CBMC does not constant-fold), so symbolic execution walks
+    every arm and every concatenation struct behind the returned `dyn MechFunction`.  The arm body (which operands it extracts, in
+    which order, into which struct, with which output allocation) is copied verbatim at generation time; the identifiers bound by
+    the arm pattern become the parameters.  NOT covered by such a harness: the computation of (nargs, rows, columns) and the choice
+    of the arm.  Returns (rust_text, binders, sha256_of_arm)."""
+    import hashlib
+    m = re.search(r"macro_rules!\s+%s\s*\{" % re.escape(macro), src)
+    if not m:
+        raise SystemExit("INCONCLUSIVE: macro %s not found in %s" % (macro, rel))
+    mend = _match_brace(src, m.end() - 1)
+    body = src[m.end():mend]
+    a, b, c = triple
+    am = re.search(r"^[ \t]*\(\s*%s\s*,\s*%s\s*,\s*%s\s*\)\s*=>\s*\{" % (re.escape(a), re.escape(b), re.escape(c)), body, re.M)
+    if not am:
+        raise SystemExit("INCONCLUSIVE: arm (%s,%s,%s) not found in %s of %s" % (a, b, c, macro, rel))
+    aend = _match_brace(body, am.end() - 1)
+    arm = body[am.end() - 1:aend + 1]
+    # helper fns: every `fn name(..) .. {..}` item (with its cfg attribute lines) before `let arguments = $args;`
+    k = body.find("let arguments = $args;")
+    if k < 0:
+        raise SystemExit("INCONCLUSIVE: %s no longer starts with `let arguments = $args;`" % macro)
+    head = body[:k]
+    helpers = []
+    for fm in re.finditer(r"((?:^[ \t]*#\[cfg\([^\n]*\)\][^\n]*\n)*)^[ \t]*fn\s+\w+[^\n{]*\{", head, re.M):
+        fe = _match_brace(head, fm.end() - 1)
+        helpers.append(head[fm.start():fe + 1])
+    binders = [x for x in (a, b, c) if re.fullmatch(r"[a-z_]\w*", x)]
+    params = "".join(", %s: usize" % x for x in binders)
+    text = ("  macro_rules! %s { ($f:ident, $kind:ident, $default:expr) => { paste!{\n"
+            "  pub fn $f(arguments: &[Value]%s) -> MResult<Box<dyn MechFunction>> {\n%s\n%s\n  }\n  }}}\n"
+            % (fname, params, "\n".join(helpers), arm))
+    return text, binders, hashlib.sha256(arm.encode()).hexdigest()
